@@ -275,6 +275,14 @@ class ChildSeams:
             if on_err is not None:
                 on_err(d)
             e = int(d["errno"])
+            if e == 32 and op.startswith("stdout"):
+                # the kernel raises SIGPIPE before write() returns EPIPE; Python ignores SIGPIPE by default, but a
+                # program that restored the default disposition is terminated on the spot: no exception, no finally
+                import signal
+
+                if signal.getsignal(signal.SIGPIPE) == signal.SIG_DFL:
+                    self.tell({"p": self.proc, "op": "exit", "code": -13, "how": "killed-by-SIGPIPE"})
+                    os._exit(0)
             raise OSError(e, os.strerror(e), self.world + "/" + path if not path.startswith("<") else path)
         return d
 
